@@ -7,6 +7,19 @@ use crate::util::{find_crlf, spec_find_crlf, first_cr, slice_take_position, lemm
 use crate::error::Error;
 ''')
 
+# The decoder's sanity limit on the length of a chunk-size line is a tuning constant of the code (`const SANITY_CHECK`
+# inside read_size).  C07 does not fix its value, so the specification takes it FROM THE SOURCE: changing the limit
+# changes which size lines the decoder accepts, not whether what it accepts is decoded exactly.
+import re as _re
+_m = _re.search(r'const\s+SANITY_CHECK\s*:\s*usize\s*=\s*(\d+)\s*;', open(REPO + '/src/chunk.rs', encoding='utf-8').read())
+if not _m:
+    raise LostAnchor('chunk::Dechunker::read_size: const SANITY_CHECK not found')
+SANITY = int(_m.group(1))
+RAW("""
+/// the value of `const SANITY_CHECK` in read_size (taken from the source on every run)
+pub open spec fn sanity_limit() -> int { %d }
+""" % SANITY)
+
 RAW('''
 /// index of the first `v` among the first n bytes of b
 pub open spec fn first_of(b: Seq<u8>, v: u8, n: int) -> Option<int>
@@ -49,7 +62,7 @@ pub open spec fn spec_step(s: Dechunker, win: Seq<u8>, room: int) -> StepOut {
     match s {
         Dechunker::Size => match spec_find_crlf(win) {
             None => StepOut::Stop,
-            Some(i) => if i > 20 { StepOut::Error } else { match size_line(win.subrange(0, i)) {
+            Some(i) => if i > sanity_limit() { StepOut::Error } else { match size_line(win.subrange(0, i)) {
                 SizeLine::NotAscii => StepOut::Error,
                 SizeLine::NotANumber => StepOut::Error,
                 SizeLine::Last => StepOut::Go { next: Dechunker::Ending, consumed: i + 2, copied: Seq::<u8>::empty(), more: true },
@@ -269,7 +282,7 @@ FN('read_size', props=['C07', 'C12', 'C01'], ret='r',
             let win = src@.subrange(old(pos).index_in as int, src.len() as int);
             match spec_find_crlf(win) {
                 None => r == Ok::<bool, Error>(false) && *final(self) == *old(self) && *final(pos) == *old(pos),
-                Some(i) => if i > 20 { r == Err::<bool, Error>(Error::ChunkExpectedCrLf) } else {
+                Some(i) => if i > sanity_limit() { r == Err::<bool, Error>(Error::ChunkExpectedCrLf) } else {
                     match size_line(win.subrange(0, i)) {
                         SizeLine::NotAscii => r == Err::<bool, Error>(Error::ChunkLenNotAscii),
                         SizeLine::NotANumber => r == Err::<bool, Error>(Error::ChunkLenNotANumber),
